@@ -44,6 +44,7 @@ from typing import Any, Callable, Collection, Dict, Generic, IO, Iterable, Itera
 import functools
 import itertools
 import string
+import types
 import _string
 
 
@@ -104,6 +105,12 @@ def _safe_format_map(format_string, mapping):
 _SAFE_STR_METHODS = {'format': _safe_format, 'format_map': _safe_format_map}
 
 
+_REFLECTIVE_TYPES = (types.FrameType, types.CodeType, types.TracebackType, types.GeneratorType, types.CoroutineType,
+                     types.AsyncGeneratorType, types.ModuleType)
+"""Objects whose *public* attributes (``gi_frame``, ``f_builtins``, ``f_globals``, ``tb_frame``, ...) lead to the
+interpreter's builtins and globals, and therefore to an unrestricted ``getattr``."""
+
+
 def get_member(obj, member: 'IdentifierToken'):
     """Gets a member of an object by the member's identifier.
 
@@ -135,6 +142,8 @@ def get_member(obj, member: 'IdentifierToken'):
         raise ParseError(f"member name expected, instead found {member}", member.offset)
     if member.name.startswith('_'):
         raise ParseError(f"Cannot read protected and private member variables: {obj}.{member.name}", member.offset)
+    if isinstance(obj, _REFLECTIVE_TYPES):
+        raise ParseError(f"Cannot read members of {type(obj).__name__} objects: {member.name}", member.offset)
     if member.name in _SAFE_STR_METHODS:
         # str.format and str.format_map traverse attributes named inside the format string
         if obj is str:
